@@ -12,7 +12,7 @@ P = {
  "C02": ("E: (canon xs).merge (canon ys) = canon (xs++ys) for Mean..Kurtosis and define_moments! of every order; hence every binary merge tree over every chunking (empty and one-element chunks included) evaluates to canon of the concatenation; total length exact.",
          "R2 (C02b, C02c): the forward-error bounds of mean() (11 n u M) and of sum_2 / population_variance / sample_variance (linear in kappa, explicit second-order term) are proved through every merge tree. For the higher moments the envelope through merges is measured against the exact oracle, not proved. Correspondence checked on enumerated/sampled trees."),
  "C03": ("E/Real: Skewness/Kurtosis folds = canon (n, mean, S2, S3, S4); skewness() = m3/m2^1.5, kurtosis() = m4/m2^2-3 for non-zero spread; re-exported accessors = C01's.",
-         "Envelope measured, not proved; sqrt modelled as Real.sqrt."),
+         "C03b: a forward-error bound linear in kappa is proved for the stored third-order sum (add-only; constant 280 vs the checked 16); for skewness()/kurtosis() themselves and for sum_4 the envelope is measured, not proved; sqrt modelled as Real.sqrt."),
  "C04": ("E: define_moments! add and merge of arbitrary order N preserve canon (binomial shift lemma, IterBinomial exact); central_moment(p) = m_p, standardized_moment(p) = m_p/sigma^p for all p <= N; agreement with Mean..Kurtosis as a corollary.",
          "Envelope measured. u64 modelled as Nat (IterBinomial overflows only for N >= 62; counts < 2^53)."),
  "C05": ("O+order: under sorted marker heights, Quantile.add = the P-square step of the paper (cell search and position increments equal the order-free specification; marker 0 never moves), any carrier arithmetic; invariant n0 = 1, n4 = count.",
